@@ -15,7 +15,8 @@ from math import gcd
 
 LEAN_MODULES = ["MpirProofs.Props.C04_allocsafe6"]
 THEOREMS = ["Mpir.AllocSafe6." + t for t in (
-    "mpq_div_zero", "mpq_mul_sqr_alloc_safe", "mpq_mul_alloc_safe", "mpq_div_alloc_safe", "mpq_div_2exp_zero_alloc_safe", "mpq_aors_coprime_alloc_safe_partial", "mpz_mul_gen_keep", "mpz_gcd_gen_keep", "equal1_one", "setSize_neg", "size_neg_iff",
+    "mpq_div_zero", "mpq_mul_sqr_alloc_safe", "mpq_mul_alloc_safe", "mpq_div_alloc_safe", "mpq_div_2exp_zero_alloc_safe", "mpq_aors_coprime_alloc_safe_partial", "mpq_aors_common_alloc_safe", "mpq_aors_alloc_safe", "mpq_add_alloc_safe", "mpq_sub_alloc_safe",
+    "zaors_gen_keep", "mpz_divexact_gcd_wrote'", "mpz_divexact_gcd_alloc_keep", "mpz_mul_alloc_keep", "mpz_gcd_alloc_keep", "equal1_spec", "absiz_le", "skipZeros_spec", "top_ne_zero", "mpz_mul_gen_keep", "mpz_gcd_gen_keep", "equal1_one", "setSize_neg", "size_neg_iff",
     "objWrite_wrote", "mpz_gcd_wrote", "mpz_divexact_gcd_wrote", "mpz_mul_wrote", "mpz_set_wrote", "mpz_add_wrote", "mpz_sub_wrote",
     )]
 TRUSTED = ["hand-written size-aware models lean/Mpir/Model/AllocSafeMpq6.lean (mpq/aors.c, mul.c, div.c, md_2exp.c on the memory model of "
